@@ -4,8 +4,8 @@ import json, os, subprocess, time, re, tempfile, shutil
 VERUS = shutil.which("verus") or "verus"
 
 
-def run_verus(path, extra=None, timeout=600, rlimit=None, threads=None):
-    cmd = [VERUS, path, "--triggers-mode", "silent", "--output-json", "--time", "--error-format=json", "--multiple-errors", "8"]
+def run_verus(path, extra=None, timeout=600, rlimit=None, threads=None, multiple_errors=8):
+    cmd = [VERUS, path, "--triggers-mode", "silent", "--output-json", "--time", "--error-format=json", "--multiple-errors", str(multiple_errors)]
     if rlimit:
         cmd += ["--rlimit", str(rlimit)]
     if threads:
